@@ -736,14 +736,24 @@ def run(ck):
         vc[v] = vc.get(v, 0) + 1
         if ts:
             vc_ts[v] = vc_ts.get(v, 0) + 1
-        if v == 0:
-            continue
         if v == 1:
             kind_differs += 1        # rule order decides which error comes first: not a disagreement
+    # replays: property violations first, then broken correspondence; one per distinct
+    # (program, layers, limit, observation) and per distinct (program, limit) - the same
+    # disagreement shows on every store kind / order / temporal-store mode
+    order = sorted(range(len(runs)), key=lambda k: 0 if where[k] is not None and verdicts[where[k]] in VIOLATING else 1)
+    reported_pl = set()
+    for k in order:
+        (i, st, det, l, ts), o, w = runs[k], outs[k], where[k]
+        if w is None:
             continue
-        if (w, ts) in reported or len(ck.violations) >= 5:
+        v = verdicts[w]
+        if v in (0, 1):
             continue
-        reported.add((w, ts))
+        if w in reported or (i, l, v) in reported_pl or len(ck.violations) >= 5:
+            continue
+        reported.add(w)
+        reported_pl.add((i, l, v))
         r = o["out"]
         prog = progs[i]
         gof = dc.facts_from_go(r["facts"]) if r["err"] != "timeout" else []
